@@ -88,42 +88,7 @@ fn rename_pat(p: &mut Pat, old: &str, new: &str) {
 }
 
 pub fn for_each_ty(p: &mut Program, f: &mut dyn FnMut(&mut Ty)) {
-    for item in p.items.iter_mut() {
-        match item {
-            Item::Alias(_, t) => f(t),
-            Item::Func(func) => {
-                for (_, t) in func.params.iter_mut() {
-                    f(t);
-                }
-                if let Some(t) = &mut func.ret {
-                    f(t);
-                }
-                func.body.visit_mut(&mut |e| match e {
-                    Expr::Block(stmts, _) => {
-                        for s in stmts.iter_mut() {
-                            if let Stmt::Let(_, t, _) = s {
-                                f(t);
-                            }
-                        }
-                    }
-                    Expr::Match(_, arms) => {
-                        for arm in arms.iter_mut() {
-                            match &mut arm.pat {
-                                MatchPat::Some_(_, t) | MatchPat::Left(_, t) | MatchPat::Right(_, t) => f(t),
-                                _ => {}
-                            }
-                        }
-                    }
-                    Expr::Call(c) => match &mut c.name {
-                        CallName::UnwrapLeft(t) | CallName::UnwrapRight(t) | CallName::IsNone(t) | CallName::Cast(t) => f(t),
-                        _ => {}
-                    },
-                    _ => {}
-                });
-            }
-            Item::Module(_) => {}
-        }
-    }
+    p.for_each_annotation(f);
     for h in p.holes.iter_mut() {
         f(&mut h.ty);
     }
